@@ -53,7 +53,8 @@ pub fn prepare_call(
 		bail!(TooManyArgsFunctionHas(params.len(), params))
 	}
 
-	let expected_defaults = params.len() - unnamed - named.len();
+	// More arguments than parameters: some name is unknown or bound twice, which is reported below
+	let expected_defaults = params.len().saturating_sub(unnamed + named.len());
 	let mut ops = PreparedCall {
 		named: Vec::with_capacity(named.len()),
 		defaults: Vec::with_capacity(expected_defaults),
